@@ -36,6 +36,8 @@ enum Op {
     Dup { src: usize, dst: usize, len: usize },
     Truncate { len: usize },
     ReadAll { fault: ReadFault, eof_record: usize },
+    /// a new, empty device and catalogue (boundary between two runs replayed as one history)
+    NewDisk,
 }
 
 #[derive(Clone, Debug)]
@@ -438,6 +440,12 @@ fn exec_op(op: &Op, w: &mut World, enumerate: bool, stats: &mut Stats, log: &mut
             log.write(text.as_bytes());
             None
         }
+        Op::NewDisk => {
+            w.disk = SimDisk::default();
+            w.cat.clear();
+            log.write(b"nd");
+            None
+        }
         Op::Sync => {
             w.disk.sync();
             log.write(b"s");
@@ -595,7 +603,7 @@ fn draw_write_fault(rng: &mut Rng) -> WriteFault {
 
 /// Generates and executes one run (generation sees the disk so that fault
 /// positions land inside written data), recording the materialised script.
-fn simulate_run(seed: u64, run: u64, fault_free: bool, stats: &mut Stats) -> Option<(Script, Violation)> {
+fn simulate_run(seed: u64, run: u64, fault_free: bool, stats: &mut Stats) -> (Script, Option<Violation>) {
     let mut rng = Rng::for_run(seed, if fault_free { tag("C15-clean") } else { tag("C15-fault") }, run);
     let mut w = World {
         disk: SimDisk::default(),
@@ -641,8 +649,7 @@ fn simulate_run(seed: u64, run: u64, fault_free: bool, stats: &mut Stats) -> Opt
             let ty = *rng.pick(&ALL_TYPES);
             if use_foreign && rng.chance(1, 4) {
                 if rng.bool() {
-                    let raws = foreign_raws(ty);
-                    step!(Op::ForeignBin { ty, raw: *rng.pick(&raws) });
+                    step!(Op::ForeignBin { ty, raw: draw_foreign_raw(&mut rng, ty) });
                 } else {
                     let texts = foreign_texts(ty);
                     step!(Op::ForeignText { ty, text: rng.pick(&texts).to_string() });
@@ -702,29 +709,86 @@ fn simulate_run(seed: u64, run: u64, fault_free: bool, stats: &mut Stats) -> Opt
     if stats.samples.len() < 2 && run < 8 && !fault_free {
         stats.samples.push(json!({"run": run, "script": script_to_json(&Script { seed, run, fault_free, enumerate, ops: ops.clone() })}));
     }
-    found.map(|v| (Script { seed, run, fault_free, enumerate, ops }, v))
+    (Script { seed, run, fault_free, enumerate, ops }, found)
 }
 
-fn shrink(mut s: Script, class: &str) -> Script {
-    let fails = |c: &Script| -> bool {
-        let mut st = Stats::default();
-        matches!(run_script(c, &mut st).0, Some((_, v)) if v.class == class)
+/// The history of one worker thread: the `k` runs it executed before `run`,
+/// then `run`, as one script (each run on its own new disk).
+fn history_script(seed: u64, run: u64, fault_free: bool, workers: u64, k: u64) -> Script {
+    let mut st = Stats::default();
+    let mut idx = run.saturating_sub(k * workers);
+    while idx % workers != run % workers {
+        idx += 1;
+    }
+    let mut combined: Option<Script> = None;
+    while idx <= run {
+        let (s, _) = simulate_run(seed, idx, fault_free, &mut st);
+        match combined.as_mut() {
+            None => combined = Some(s),
+            Some(c) => {
+                c.ops.push(Op::NewDisk);
+                c.enumerate = c.enumerate || s.enumerate;
+                c.ops.extend(s.ops);
+            }
+        }
+        idx += workers;
+    }
+    let mut c = combined.expect("at least the run itself");
+    c.run = run;
+    c
+}
+
+fn fails_in_process(s: &Script, class: &str) -> bool {
+    let mut st = Stats::default();
+    matches!(run_script(s, &mut st).0, Some((_, v)) if v.class == class)
+}
+
+/// Executes the script with --replay in a new process: no state left in the
+/// library by earlier runs can take part.
+fn fails_in_fresh_process(s: &Script, class: &str) -> bool {
+    let path = simcore::verif_root().join("sim").join("target").join(format!("c15-scratch-{}.json", std::process::id()));
+    let body = json!({"property": PROPERTY, "kind": "disk", "class": class, "script": script_to_json(s)});
+    if simcore::evidence::write_json_atomic(&path, &body).is_err() {
+        return false;
+    }
+    let exe = match std::env::current_exe() {
+        Ok(e) => e,
+        Err(_) => return false,
+    };
+    let r = std::process::Command::new(exe).arg("--replay").arg(&path).arg("--expect-class").arg(class).output();
+    let _ = std::fs::remove_file(&path);
+    matches!(r, Ok(o) if o.status.code() == Some(EXIT_VIOLATION))
+}
+
+fn shrink(mut s: Script, class: &str, pred: &dyn Fn(&Script, &str) -> bool, mut budget: usize) -> Script {
+    let mut fails = |c: &Script| -> bool {
+        if budget == 0 {
+            return false;
+        }
+        budget -= 1;
+        pred(c, class)
     };
     if !fails(&s) {
         return s;
     }
     loop {
         let mut changed = false;
-        let mut st = Stats::default();
-        if let (Some((i, _)), _) = run_script(&s, &mut st) {
-            if i + 1 < s.ops.len() {
+        // drop whole chunks first (histories can be long), then single ops
+        let mut chunk = s.ops.len() / 2;
+        while chunk >= 2 {
+            let mut start = 0;
+            while start < s.ops.len() {
+                let end = (start + chunk).min(s.ops.len());
                 let mut c = s.clone();
-                c.ops.truncate(i + 1);
-                if fails(&c) {
+                c.ops.drain(start..end);
+                if !c.ops.is_empty() && fails(&c) {
                     s = c;
                     changed = true;
+                } else {
+                    start += chunk;
                 }
             }
+            chunk /= 2;
         }
         let mut i = s.ops.len();
         while i > 0 {
@@ -807,6 +871,7 @@ fn script_to_json(s: &Script) -> Value {
             Op::ForeignBin { ty, raw } => json!({"op": "foreign_bin", "type": ty.name(), "raw": raw}),
             Op::ForeignText { ty, text } => json!({"op": "foreign_text", "type": ty.name(), "text": text}),
             Op::Sync => json!({"op": "sync"}),
+            Op::NewDisk => json!({"op": "new_disk"}),
             Op::CrashLose => json!({"op": "crash_lose_unsynced_tail"}),
             Op::CrashTorn { keep, fill } => json!({"op": "crash_torn_tail", "keep": keep, "fill": fill}),
             Op::BitFlip { pos, bit } => json!({"op": "bit_flip", "pos": pos, "bit": bit}),
@@ -834,6 +899,7 @@ fn script_from_json(v: &Value) -> Result<Script, String> {
             "foreign_bin" => Op::ForeignBin { ty: ty()?, raw: o["raw"].as_i64().ok_or("raw")? },
             "foreign_text" => Op::ForeignText { ty: ty()?, text: o["text"].as_str().ok_or("text")?.to_string() },
             "sync" => Op::Sync,
+            "new_disk" => Op::NewDisk,
             "crash_lose_unsynced_tail" => Op::CrashLose,
             "crash_torn_tail" => Op::CrashTorn { keep: u("keep")?, fill: u("fill")? as u8 },
             "bit_flip" => Op::BitFlip { pos: u("pos")?, bit: u("bit")? as u8 },
@@ -860,7 +926,7 @@ fn script_from_json(v: &Value) -> Result<Script, String> {
     })
 }
 
-fn replay(path: &str) -> i32 {
+fn replay(path: &str, expect_class: Option<&str>) -> i32 {
     let v = match simcore::evidence::read_json(std::path::Path::new(path)) {
         Ok(v) => v,
         Err(e) => {
@@ -882,6 +948,10 @@ fn replay(path: &str) -> i32 {
     let (viol, hash) = run_script(&script, &mut st);
     println!("replay {}: {} ops, log hash {:016x}", path, script.ops.len(), hash);
     match viol {
+        Some((_, v)) if expect_class.map(|c| c != v.class).unwrap_or(false) => {
+            println!("a violation of another class ({}) occurs, not the expected one", v.class);
+            EXIT_OK
+        }
         Some((i, v)) => {
             println!("reproduced at op {}: class={} {}", i, v.class, v.detail);
             println!("VIOLATION property={} replay={}", PROPERTY, path);
@@ -1065,6 +1135,7 @@ fn main() {
     let mut no_miri = false;
     let mut out = simcore::verif_root().join("evidence").join("C15.json");
     let mut replay_file: Option<String> = None;
+    let mut expect_class: Option<String> = None;
     let mut i = 1;
     while i < args.len() {
         match args[i].as_str() {
@@ -1089,6 +1160,10 @@ fn main() {
                 i += 1;
                 replay_file = Some(args[i].clone());
             }
+            "--expect-class" => {
+                i += 1;
+                expect_class = Some(args[i].clone());
+            }
             other => {
                 eprintln!("unknown argument {other}");
                 std::process::exit(EXIT_HARNESS);
@@ -1098,7 +1173,7 @@ fn main() {
     }
     codec::install_panic_hook();
     if let Some(f) = replay_file {
-        std::process::exit(replay(&f));
+        std::process::exit(replay(&f, expect_class.as_deref()));
     }
     if tier != "quick" && tier != "thorough" {
         eprintln!("unknown tier {tier}");
@@ -1114,7 +1189,7 @@ fn main() {
     // ---- batch 1: fault-free configuration (round trip must hold for every record) ----
     let n_clean: u64 = runs_override.map(|r| r / 4).unwrap_or(if thorough { 400_000 } else { 20_000 });
     let mut total: Stats = pool::run_parallel(n_clean, workers, |idx, acc: &mut Stats, cut: &Cutoff| {
-        if let Some((s, v)) = simulate_run(seed, idx, true, acc) {
+        if let (s, Some(v)) = simulate_run(seed, idx, true, acc) {
             cut.lower_to(idx);
             acc.violations.push((idx, s, v));
         }
@@ -1143,7 +1218,7 @@ fn main() {
     let n_fault: u64 = runs_override.unwrap_or(if thorough { 1_500_000 } else { 60_000 });
     let fault: Stats = if total.violations.is_empty() {
         pool::run_parallel(n_fault, workers, |idx, acc: &mut Stats, cut: &Cutoff| {
-            if let Some((s, v)) = simulate_run(seed, idx, false, acc) {
+            if let (s, Some(v)) = simulate_run(seed, idx, false, acc) {
                 cut.lower_to(idx);
                 acc.violations.push((idx, s, v));
             }
@@ -1153,6 +1228,7 @@ fn main() {
     };
     let fault_runs = fault.runs;
     let first_batch_violations = total.violations.clone();
+    let from_fault_free_batch = !first_batch_violations.is_empty();
     total.merge(fault);
     if !first_batch_violations.is_empty() {
         total.violations = first_batch_violations;
@@ -1180,38 +1256,69 @@ fn main() {
     let mut exit = EXIT_OK;
     let mut lines: Vec<String> = Vec::new();
     let mut n_viol = 0;
-    if let Some((idx, script, v)) = total.violations.first().cloned() {
-        let min = shrink(script.clone(), v.class);
+    for (idx, script, v) in total.violations.clone() {
+        let class = v.class;
+        println!("original violation (run {}): class={} sig={} : {}", idx, class, v.sig, v.detail);
+        // does the run reproduce on its own in a fresh process? if not, hidden
+        // state from earlier runs of the same worker thread takes part: prepend them
+        let mut base: Option<Script> = None;
+        if fails_in_fresh_process(&script, class) {
+            base = Some(script.clone());
+        } else if script.seed != 0 {
+            for k in [1u64, 2, 4, 8, 16, 32, 64] {
+                let h = history_script(seed, idx, from_fault_free_batch, workers as u64, k);
+                if fails_in_fresh_process(&h, class) {
+                    println!("the run alone does not reproduce; it does after the {} preceding run(s) of its worker thread", k);
+                    base = Some(h);
+                    break;
+                }
+            }
+        }
+        let base = match base {
+            Some(b) => b,
+            None => {
+                eprintln!("harness error: violation of run {} did not reproduce in a fresh process", idx);
+                exit = EXIT_HARNESS;
+                continue;
+            }
+        };
+        let quick_min = shrink(base.clone(), class, &fails_in_process, 20_000);
+        let min = if fails_in_fresh_process(&quick_min, class) {
+            quick_min
+        } else {
+            shrink(base.clone(), class, &fails_in_fresh_process, 500)
+        };
         let mut st = Stats::default();
         let (final_script, final_v) = match run_script(&min, &mut st).0 {
-            Some((_, vm)) if vm.class == v.class => (min, vm),
-            _ => (script, v),
+            Some((_, vm)) if vm.class == class => (min, vm),
+            _ => (min, v.clone()),
         };
         println!("violation class={} sig={} : {}", final_v.class, final_v.sig, final_v.detail);
         if let Some(desc) = known.lookup(PROPERTY, &final_v.sig) {
             println!("KNOWN-FINDING: property={} {} ({})", PROPERTY, final_v.sig, desc);
+            break;
+        }
+        n_viol += 1;
+        let path = simcore::verif_root().join("replays").join(format!("C15-{}-{}.json", seed, idx));
+        let body = json!({"property": PROPERTY, "kind": "disk", "class": final_v.class, "signature": final_v.sig, "detail": final_v.detail, "seed": seed, "run": idx, "script": script_to_json(&final_script)});
+        if let Err(e) = simcore::evidence::write_json_atomic(&path, &body) {
+            eprintln!("harness error: cannot write replay file: {e}");
+            std::process::exit(EXIT_HARNESS);
+        }
+        let exe = std::env::current_exe().expect("current_exe");
+        let confirmed = std::process::Command::new(exe)
+            .arg("--replay")
+            .arg(&path)
+            .output()
+            .map(|o| o.status.code() == Some(EXIT_VIOLATION))
+            .unwrap_or(false);
+        if confirmed {
+            lines.push(format!("VIOLATION property={} replay={}", PROPERTY, path.display()));
+            exit = EXIT_VIOLATION;
+            break;
         } else {
-            n_viol += 1;
-            let path = simcore::verif_root().join("replays").join(format!("C15-{}-{}.json", seed, idx));
-            let body = json!({"property": PROPERTY, "kind": "disk", "class": final_v.class, "signature": final_v.sig, "detail": final_v.detail, "seed": seed, "run": idx, "script": script_to_json(&final_script)});
-            if let Err(e) = simcore::evidence::write_json_atomic(&path, &body) {
-                eprintln!("harness error: cannot write replay file: {e}");
-                std::process::exit(EXIT_HARNESS);
-            }
-            let exe = std::env::current_exe().expect("current_exe");
-            let confirmed = std::process::Command::new(exe)
-                .arg("--replay")
-                .arg(&path)
-                .output()
-                .map(|o| o.status.code() == Some(EXIT_VIOLATION))
-                .unwrap_or(false);
-            if confirmed {
-                lines.push(format!("VIOLATION property={} replay={}", PROPERTY, path.display()));
-                exit = EXIT_VIOLATION;
-            } else {
-                eprintln!("harness error: violation did not reproduce from {}", path.display());
-                exit = EXIT_HARNESS;
-            }
+            eprintln!("harness error: violation did not reproduce from {}", path.display());
+            exit = EXIT_HARNESS;
         }
     }
     if let Some(m) = &miri_res {
